@@ -251,11 +251,10 @@ theorem termHgtRef_child {H W : Nat} {root : Val} {r : PRef} {pv : Val} (s : Seg
 theorem term_intStr_ne (i : Int) : intStr i ≠ [] ∧ intStr i ≠ sNew ∧ intStr i ≠ ['*'] := by
   refine ⟨(intStr_idxExpr i).ne, ?_, ?_⟩
   · intro h
-    have := P_intStr (P := NoNew) i
-    rw [h] at this
-    exact SafePred.notNew this
+    rcases intStr_cases i with ⟨n, _, hn⟩ | ⟨n, _, hn⟩
+    · rw [hn] at h; exact (natStr_ne_special n).1 h
+    · rw [hn, sNew_eq] at h; cases h
   · intro h
-    have := (intStr_idxExpr i)
     rcases intStr_cases i with ⟨n, _, hn⟩ | ⟨n, _, hn⟩
     · rw [hn] at h; exact (natStr_ne_special n).2 h
     · rw [hn] at h; cases h
